@@ -509,6 +509,19 @@ int pthread_create(pthread_t *th, const pthread_attr_t *attr, void *(*fn)(void *
     Th *me = tl_me;
     set_pending(me, OP_CREATE);
     dispatch(me);
+    bool fail = false;
+    if (g_ctl) {
+        // the controller's code is instrumented like the harness: no scheduling points inside the scheduler's own operation
+        ++tl_pass;
+        if (rd_ignore) rd_ignore(1);
+        fail = g_ctl->fail_create();
+        if (rd_ignore) rd_ignore(-1);
+        --tl_pass;
+    }
+    if (fail) {
+        applied(me, -1);
+        return EAGAIN;
+    }
     Th *n = new Th;
     n->id = (int) g_threads.size();
     sem_init(&n->sem, 0, 0);
